@@ -467,6 +467,11 @@ def _builtin(ex, name, args, kwargs, st, node):
         return ex.ok(SV(V.TRS, args[0].z), st)  # the dict of rows is abstracted by its value sequence
     if name == "len" and len(args) == 1 and isinstance(args[0], SV) and args[0].z.sort() == V.RS:
         return ex.ok(SV(TInt, V.rlen(args[0].z)), st)
+    if name == "len" and len(args) == 1 and isinstance(args[0], SV) and isinstance(args[0].td, TRefT) and is_ri(ex, args[0].td.cls):
+        # len(x) of a row iterable is x.__len__(): a call through the (virtual, verified) contract of MaterializedRowIterable.__len__
+        m = args[0].td.cls.lookup("__len__")
+        if m is not None:
+            return ex.call_function(m, args[0], [], {}, st, node)
     if name == "enumerate" and len(args) == 1 and _source_rows(ex, args[0], st, note=False) is not None:
         return ex.ok(PyEnumerate(args[0]), st)
     if name == "list" and len(args) == 1:
@@ -658,6 +663,8 @@ def register(reg):
     # ---- the conversion methods: every implementation against the virtual contract
     TIt = TRefT(reg_cls(reg, "RowIterable"))
     mat = lambda c, z: z3.Or(smt.typ(z) == cid(c, "RowSequence"), smt.typ(z) == cid(c, "RowMapping"))  # noqa: E731
+    k = reg.contract(f"{MOD}:MaterializedRowIterable.__len__", virtual=True, assumed=False, properties=P, result_td=TInt, note="")
+    k.ens("the-number-of-rows-it-yields", lambda c: B(c.result.z == V.rlen(V.content(c.self.z))))
     k = reg.contract(f"{MOD}:RowIterable.to_mapping", virtual=True, assumed=False, properties=P, result_td=TIt, note="")
     k.requires.clear(), k.ensures.clear()
     k.req("key-columns-are-columns-of-the-rows", lambda c: B(z3.IsSubset(as_tagset(c.unique_key), V.rcols(V.content(c.self.z)))))
